@@ -75,8 +75,11 @@ def main():
         c.violation("field operators of %s (sites %s, build %s, partition %s) are not the rotated Jordan-Wigner operators" % (
             s["id"], s["sites"], json.dumps(s["build"])[:200], json.dumps(s["partition"])), s, cls="fieldop")
         pos += v.matched + 1
-    import cplxtier
+    import cplxtier, rankstier
     cplxtier.run(c, {"q": "c10"}, "FieldOpTrace", "C10", "field operators", 8 if not thorough else 80)
+    # the operators every rank holds (eigenvectors are broadcast, operators are computed on every rank)
+    sub = [s for s in scen if s["id"] not in crashed][: (16 if not thorough else 80)]
+    rankstier.run(c, sub, "FieldOpTrace", "C10", "field operators", nranks=3)
     c.rule = "catalogue + %d random models x partitions, all indices, container and one-by-one routes, all c^+_i c_j; non-trivial = distinct (model, partition)" % nrand
     c.trusted = ["TLC", "harness rotation U_to.part.U_from^+ (Eigen arithmetic)"]
     c.assumptions = ["tolerance 1e-9 per entry", "real build"]
